@@ -36,6 +36,10 @@ pub fn run(args: &[String]) {
     let mut fixed: Vec<(Vec<(String, u16, i32)>, f64)> = vec![
         (vec![], 0.0), (vec![("C".into(), 0, 2)], 0.9999), (vec![("C".into(), 0, 3), ("O".into(), 0, 4)], 0.001),
         (vec![("C".into(), 0, 0)], 0.0), (vec![("Cl".into(), 0, 2), ("Br".into(), 0, 1)], 0.0),
+        // a leading element whose every arrangement falls below the threshold, followed by more elements:
+        // nothing may come back (an emptied accumulator must stay empty)
+        (vec![("Br".into(), 0, 3), ("H".into(), 0, 2)], 0.5), (vec![("Cl".into(), 0, 4), ("C".into(), 0, 2), ("H".into(), 0, 1)], 0.9999),
+        (vec![("Se".into(), 0, 4), ("H".into(), 0, 2)], 0.3),
     ];
     while id < n {
         let (ents, thr) = if let Some(f) = fixed.pop() { f } else {
